@@ -611,6 +611,16 @@ func c19Delay(c *Check, P string, m *MW) {
 	if !c.Floor(P+".O2", "DelayOnError: call of the delay helper", len(helpers), 1) {
 		return
 	}
+	// … and on every error: no property of the error (its kind, its text) lets a failure go without its delay step
+	for _, e := range fail {
+		re := ReachEdge(e, NewCut().AddInstrs(instrsOf(helpers)...))
+		for i, r := range Returns(I) {
+			if re[r] {
+				c.Report(false, P+".O2", "DELAY-ON-EVERY-ERROR", I, r.Pos(), fmt.Sprintf("DelayOnError return#%d", i), "from the handler-error edge every path to the return passes the delay helper (every failure counts as a step of the back-off, whatever the error is)")
+			}
+		}
+	}
+	c.Report(true, P+".O2", "DELAY-ERROR-PATHS-SCANNED", I, I.Pos(), "DelayOnError", "paths from the handler-error edge to the returns examined")
 	for _, h := range helpers {
 		c.Report(len(fail) > 0 && GuardedBy(I, h, fail), P+".O2", "DELAY-ONLY-ON-ERROR", I, h.Pos(), "DelayOnError", "the delay is stamped only on the handler-error edge (successes untouched)")
 		okM := false
@@ -722,6 +732,16 @@ func c19Delay(c *Check, P string, m *MW) {
 			}
 			return false
 		})
+		// the builtin: min(product, MaxInterval)
+		if !okCap {
+			if args, isMin := IsBuiltinCall(firstOrigin(f.Common().Args[0]), "min"); isMin && len(args) == 2 && product != nil {
+				p0, p1 := AllOrigins(args[0], func(x ssa.Value) bool { return x == product }), AllOrigins(args[1], func(x ssa.Value) bool { return x == product })
+				m0, m1 := AllOrigins(args[0], isMax), AllOrigins(args[1], isMax)
+				if (p0 && m1) || (p1 && m0) {
+					okSet, hasProd, hasMax, okCap = true, true, true, true
+				}
+			}
+		}
 		if phi != nil && hasProd && hasMax {
 			PH := phi.Parent()
 			for _, t := range Tests(PH) {
